@@ -42,16 +42,20 @@ class Site:
 
 
 class Defn:
-    def __init__(self, fails=False, sites=(), limits=None, reads_ctx=False):
+    def __init__(self, fails=False, sites=(), limits=None, reads_ctx=False, lazy_ctx=False):
         self.fails = fails
         self.sites = list(sites)
         self.limits = limits          # definition-time limits option
         self.reads_ctx = reads_ctx    # signature (a=get_context("a", 0), b=get_context("b", 0)); returns them
+        self.lazy_ctx = lazy_ctx      # the RESULT contains get_context("a", 0), get_context("b", 0): evaluated under the job's
+        #                               context after the task ran - same eval hash in every context, context-dependent value
 
     def to_json(self):
         d = {"fails": self.fails, "limits": self.limits, "sites": [s.to_json() for s in self.sites]}
         if self.reads_ctx:
             d["reads_ctx"] = True
+        if self.lazy_ctx:
+            d["lazy_ctx"] = True
         return d
 
 
@@ -138,7 +142,7 @@ class Program:
         if not sp["execOk"]:
             raise KeyError("executor")
         head = ["k%d" % sp["callee"]]
-        if d.reads_ctx:
+        if d.reads_ctx or d.lazy_ctx:
             head += [sp["ctxd"].get("a", 0), sp["ctxd"].get("b", 0)]
         return head + [self.expected(sp["children"][k]) for k in sp.get("site_child", [])]
 
@@ -224,6 +228,33 @@ def gen_wide(rng, p_dup=0.15):
     return Program(defs, {"r0": lim, "r1": rng.choice([1, 2])})
 
 
+def gen_chain(rng, p_lazy=0.5, p_cse=0.3, ctxs=None):
+    """Sequenced duplicates: a spine k0 -> k1 -> ... where every spine job also calls one shared leaf (the last definition),
+    under a context / cache scope chosen per site.  The calls of the leaf are created at increasing depth, so a later one is
+    looked up while an earlier twin is running, evaluating, resolved or long finalized, depending on the schedule."""
+    ctxs = ctxs or [None, None, {"a": 1}, {"a": 1}, {"a": 2}, {"b": 1}]
+    n = rng.choice([3, 4, 4, 5])
+    kind = rng.random()
+    leaf = Defn(False, [], rng.choice([None, None, ["r0"]]), reads_ctx=(kind >= p_lazy and kind < p_lazy + 0.2), lazy_ctx=kind < p_lazy)
+    defs = []
+    for i in range(n):
+        sites = []
+        for _ in range(rng.choice([1, 1, 2])):
+            st = Site(n)
+            st.ctx = rng.choice(ctxs)
+            if rng.random() < p_cse:
+                st.scope = "CSE"
+            sites.append(st)
+        if i < n - 1:
+            nxt = Site(i + 1)
+            if rng.random() < 0.3:
+                nxt.ctx = rng.choice(ctxs)
+            sites.insert(rng.randrange(len(sites) + 1), nxt)
+        defs.append(Defn(False, sites, None))
+    defs.append(leaf)
+    return Program(defs, {"r0": rng.choice([1, 2])})
+
+
 def feasible(p: Program) -> bool:
     """no job demands more of a resource than its configured limit"""
     return all(c <= p.limits_cfg.get(n, 1) for sp in p.specs for n, c in sp["limits"].items())
@@ -270,6 +301,9 @@ def build_real(p: Program):
         if d.reads_ctx:
             def body(a=get_context("a", 0), b=get_context("b", 0)):
                 return run_body([a, b])
+        elif d.lazy_ctx:
+            def body():
+                return run_body([get_context("a", 0), get_context("b", 0)])
         else:
             def body():
                 return run_body([])
